@@ -155,6 +155,16 @@ def reader_check(case):
         dat, sy = sr.read(nsel=slice(10, 300), csel=slice(None), sync=True)
         if sy.shape[0] != 290 or not np.array_equal(sy[:, :16], expected[10:300, :16]):
             v.append(("read:sync", "read(..., sync=True) returns a sync array that is not the decoded sync of the same samples"))
+        # one row per sample also when the selection holds one sample or none (the short last chunk of a chunked read)
+        for sel, rows in ((slice(7, 8), [7]), (slice(ns - 1, ns), [ns - 1]), (slice(40, 40), []), (slice(ns - 2, ns + 5), [ns - 2, ns - 1])):
+            dat, sy = sr.read(nsel=sel, csel=slice(None), sync=True)
+            sy = np.asarray(sy)
+            if sy.ndim != 2 or sy.shape[0] != len(rows) or sy.shape[1] < 16 or not np.array_equal(sy[:, :16], expected[rows, :16].reshape(len(rows), 16)):
+                v.append(("read:sync:rows", "read(nsel=%r, sync=True): sync array of shape %r for %d selected sample(s): one row per sample expected" % (sel, sy.shape, len(rows))))
+                break
+        ds, sy = sr.read_samples(first_sample=ns - 1, last_sample=ns) if hasattr(sr, "read_samples") else (None, np.zeros((1, 16)))
+        if np.asarray(sy).ndim != 2 or np.asarray(sy).shape[0] != 1:
+            v.append(("read:sync:rows", "read_samples(%d, %d): sync array of shape %r: one row per sample expected" % (ns - 1, ns, np.asarray(sy).shape)))
     finally:
         sr.close()
     return Res(v, o=(typ, nanalog), tr=14)
